@@ -117,6 +117,8 @@ class Adapter(object):
         with core.quiet():
             if op == "rename_column":
                 g.rename_column(args[0], args[1])
+            elif op == "rename_columns":
+                g.rename_column(list(args[0]), list(args[1]))
             elif op == "delete_column":
                 # delete_column is a primitive: like add_column it leaves the derived name lists to the caller
                 # (reduce(), the readers and constructors refresh them); the edit in the alphabet is the pair
@@ -400,6 +402,13 @@ def op_alphabet(geo, rng, rich):
     free = [n for n in ("  x", "  y", " zz") if n not in geo.column]
     if free and names:
         ops.append({"op": "rename_column", "args": [rng.choice(names), free[0]]})
+    if len(free) >= 2 and geo.connectionlist:
+        # several columns in one call, two of them joined by a connection
+        con = rng.choice(geo.connectionlist)
+        pair = [c.name for c in con.column]
+        if rng.random() < 0.5:
+            pair.reverse()
+        ops.append({"op": "rename_columns", "args": [pair, free[:2]]})
     if len(names) > 1:
         ops.append({"op": "delete_column", "args": [rng.choice(names)]})
         keep = connected_subset(geo, rng, max(1, len(names) // 2))
@@ -417,7 +426,7 @@ def op_alphabet(geo, rng, rich):
         ops.append({"op": "rename_layer", "args": [geo.layerlist[0].name, free_l[0]]})           # the atmosphere layer
         if len(geo.layerlist) > 1 and len(free_l) > 1:
             ops.append({"op": "rename_layer", "args": [rng.choice(geo.layerlist[1:]).name, free_l[1]]})
-    ops.append({"op": "translate", "args": [rng.choice([4, -8]), rng.choice([0, 4]), rng.choice([0, -4])]})
+    ops.append({"op": "translate", "args": [rng.choice([4, -8]), rng.choice([0, 4]), rng.choice([0, -4, 4, 12])]})        # also up by more than the top layer
     ops.append({"op": "rotate90", "args": [rng.choice([1, 2, 3])]})
     ops.append({"op": "check", "args": []})
     ops.append({"op": "snap_columns_to_layers", "args": [2]})
